@@ -7,12 +7,14 @@ structure ZB where
   c : List (Bytes × Res Bytes) := []
   u : List ((Bytes × Nat) × Res Bytes) := []
   e : List (Bytes × Bytes) := []
+  l : List (Bytes × Res Nat) := []
   d : List (Bytes × Res Bytes) := []
 
 def ZB.codec (z : ZB) : BlockCodec :=
   { compressBlock := fun s => match z.c.find? (·.1 == s) with | some p => p.2 | none => .panic "compressBlock: not in oracle table"
     uncompressBlock := fun s n => match z.u.find? (·.1 == (s, n)) with | some p => p.2 | none => .panic "uncompressBlock: not in oracle table"
     encode := fun s => match z.e.find? (·.1 == s) with | some p => p.2 | none => []
+    decodedLen := fun s => match z.l.find? (·.1 == s) with | some p => p.2 | none => .panic "decodedLen: not in oracle table"
     decode := fun s => match z.d.find? (·.1 == s) with | some p => p.2 | none => .panic "decode: not in oracle table" }
 
 def resOf (s : String) : Res Bytes := if s == "!" then .err "oracle" else match ofHex s with
@@ -39,6 +41,9 @@ def handle (z : ZB) (args : List String) : ZB × String :=
     | some s, some n => ({ z with u := ((s, n), resOf o) :: z.u }, "ok") | _, _ => (z, "bad-op")
   | ["zb", "e", s, o] => match ofHex s, ofHex o with
     | some s, some o => ({ z with e := (s, o) :: z.e }, "ok") | _, _ => (z, "bad-op")
+  | ["zb", "l", s, o] => match ofHex s with
+    | some s => ({ z with l := (s, if o == "!" then .err "oracle" else match o.toNat? with | some n => .ok n | none => .panic "bad number") :: z.l }, "ok")
+    | none => (z, "bad-op")
   | ["zb", "d", s, o] => match ofHex s with
     | some s => ({ z with d := (s, resOf o) :: z.d }, "ok") | none => (z, "bad-op")
   | ["cmp", alg, op, h] => match ofHex h with
